@@ -33,7 +33,7 @@ def run(prop, tier):
         jobs.append(dict(src=SRC, atomic=a, args=["tls", "-p", p, "--", 2]))
     acc = mcsched.run_jobs(prop, tier, jobs)
     extra = {}
-    if tier == "thorough" and not acc.viols:
+    if tier == "thorough" and not acc.viols and not acc.engine_errors:
         extra = mcsched.conformance(acc, [j for j in jobs if j["args"][0] not in ("values", "barrier")])
     cov = mcsched.coverage(acc, "stateless DFS over all interleavings with <= %d preemptions of creator scripts over ref/unref/join x joinable/detached x thread bodies, "
                                 "exit codes {return,0,7,-3}, TLS set/replace/set/get by 2-3 threads racing on the first use of the key, foreign threads using p_uthread_current; "
